@@ -303,7 +303,7 @@ CHECKS["C11"] = {
 }
 CHECKS["C15"] = {
     "runs": [
-        {"pkg": "./cmd/guardiand", "entry": "VerifC15_Requests", "reach": ["accepted", "rejected"], "opts": {"z3": "z3-new"},
+        {"pkg": "./cmd/guardiand", "entry": "VerifC15_Requests", "reach": ["accepted", "rejected"], "opts": {"z3": "z3-new"}, "opts_thorough": {"unwind": 70000, "steps": 40000000},
          "shards": {"quick": ["kind=0", "kind=1;amount.len=31,32", "kind=1;amount.len=33", "kind=2", "kind=3", "kind=4", "kind=5", "kind=6;sequences=0,1,2", "kind=7", "kind=8;refund.len=0,1,33", "kind=9"],
                     "thorough": ["kind=0", "kind=1", "kind=2", "kind=3", "kind=4", "kind=5", "kind=6;sequences=0,1,2", "kind=6;sequences=65535", "kind=6;sequences=65536", "kind=7", "kind=8;refund.len=0,1,33", "kind=8;refund.len=65535;refund.form=0", "kind=8;refund.len=65536;refund.form=0", "kind=9"]},
          "timeout": {"quick": 2400, "thorough": 30000}},
@@ -337,12 +337,12 @@ CHECKS["C20"] = {
     "runs": [
         {"pkg": "./cmd/spy", "entry": "VerifC20_Delivery", "reach": ["delivered", "filtered", "end"], "opts": {"z3": "z3-new"}, "allow_blocked": True,
          "shards": {"quick": ["nsub=1", "nsub=2;nvaa=1;nfilters#0=0", "nsub=2;nvaa=1;nfilters#0=1", "nsub=2;nvaa=1;nfilters#0=2", "nsub=2;nvaa=2;nfilters=0,1;stalledSub=9", "nsub=2;nvaa=3;nfilters=0,1;stalledSub=9;v.chain=0", "nsub=2;nvaa=3;stalledSub=0;nfilters=0,1", "nsub=2;nvaa=3;stalledSub=1;nfilters=0,1"],
-                    "thorough": ["nsub=1", "nsub=2"] + ["nsub=3;nvaa=%d;stalledSub=%d" % (v, st) for v in (1, 2, 3) for st in (9, 0, 1, 2)]},
+                    "thorough": ["nsub=1", "nsub=2"] + ["nsub=3;nvaa=%d;stalledSub=%d;nfilters=0,1" % (v, st) for v in (1, 2) for st in (9, 0, 1, 2)]},
          "timeout": {"quick": 2400, "thorough": 30000}},
     ],
     "bounds": {"quick": {"scenarios": "1..2 subscribers with 0..2 filters each (chain id and last address byte symbolic, filters may coincide); 1..3 published VAAs with symbolic emitter chain and address byte; nobody or one subscriber stalled from the start (its Send never returns); afterwards a new subscription, its disconnect, and the disconnect of every draining subscriber",
                          "unwind": 3000},
-               "thorough": {"scenarios": "3 subscribers"}},
+               "thorough": {"scenarios": "3 subscribers with 0..1 filters each and 1..2 published VAAs"}},
     "outside": "pre-emptive interleavings inside Publish / SubscribeSignedVAA (the scheduler is cooperative: a goroutine runs until it blocks); gRPC transport; delivery multiplicity (a subscriber with two matching filters is sent the VAA twice today - recorded, not asserted); map iteration order other than insertion order",
     "assumptions": ["cooperative goroutine model; sync.Mutex with blocking Lock; buffered channels as FIFO queues", "uuid.New() returns fresh distinct ids; context model; gRPC stream = harness fake (draining / stalled)"],
 }
